@@ -15,6 +15,28 @@ CHECKS = {
          "clauses for every paint graph; does not bound the number of visited nodes beyond depth <= 64.",
     note="Trusted: rustc MIR construction, the fact dumper, the explorer. The embedder's painter is a black box (A-CB).",
  ),
+ "C18": dict(
+    technique="dominating-guard analysis, who-may-call over resolved callees, path-sensitive no-error-exit-after-mutation (T-AFTER), result-fate query",
+    design_ref="DESIGN.md §4 C18",
+    text="Decides for all CFG paths: both apply entry points are gated by the two compatibility-id comparisons whose mismatch "
+         "edge returns IncompatiblePatch, and the appliers/decoder have no other callers (no decoding for a mismatched id); in "
+         "apply_next_patches_with_decoder no exit other than Ok is reachable after any store to a UriStatus and every store "
+         "writes Applied (atomic bookkeeping for a decoder failing at any call); every decode/applier result is propagated; a "
+         "REPLACE_TABLE entry is decoded without a dictionary. Does not decide which bytes change, glyph-keyed order "
+         "independence or offset widening arithmetic (value level).",
+    note="Trusted: rustc MIR, fact dumper, explorer; the brotli decoder (incl. FFI) is a black box returning Ok/Err.",
+ ),
+ "C19": dict(
+    technique="ADT shape query (type-level invariants), path-sensitive progress automaton, instance-level call-graph SCCs with bounded-recursion recognisers",
+    design_ref="DESIGN.md §4 C19",
+    text="Decides: the selected-group types cannot represent two invalidating patches per table, anything beside a full "
+         "invalidation, or a URI twice in a scope (payload shapes + map keyed by the URI string at the only insertion sites); "
+         "every non-Err exit of apply_next_patches_with_decoder has flipped a Pending entry or passed the non-empty test of a "
+         "list filled only from Pending entries (progress => extension terminates); every call-graph cycle in the IFT crates "
+         "is bounded (the entry-intersection recursion by memoised in-order evaluation over strictly prior child indices). "
+         "Does not decide intersection semantics, tie-breaking or monotonicity (value level).",
+    note="Trusted: rustc MIR/type facts, call-graph construction (A-CB: no edges for embedder type parameters / std callbacks).",
+ ),
 }
 
 NOT_APPLICABLE = {
